@@ -686,7 +686,7 @@ def summarise(err):
 
 class C19(Check):
     pid = "C19"
-    lean_modules = []
+    lean_modules = ["MTProps.C19"]
     needs_native = False
 
     def body(self):
